@@ -104,6 +104,58 @@ func genCase(r *kit.Rand, idx int, tier string) (out []string) {
 		do(fmt.Sprintf("sched %d %d %d %d cron=%s frac=%d", id, nsched, off, last, kit.Esc(c), frac))
 		nsched++
 	}
+	// the same calls, made through the real coordinator (TaskCreated / TaskUpdated / TaskDeleted)
+	coord := func() {
+		id := kit.Pick(r, ids)
+		now := h.mc.Mock.Now().Unix()
+		tm := func() string {
+			switch r.Intn(4) {
+			case 0:
+				return "z"
+			case 1:
+				return strconv.FormatInt(now, 10)
+			default:
+				v := now - int64(r.Intn(40)) + int64(r.Intn(10))
+				if v < 1 {
+					v = 1
+				}
+				return strconv.FormatInt(v, 10)
+			}
+		}
+		ls, lc := tm(), tm()
+		if ls == "z" && lc == "z" {
+			lc = strconv.FormatInt(now+1, 10) // the zero time is not generated (year-1 arithmetic)
+		}
+		every, cron := "-", "-"
+		switch r.Intn(6) {
+		case 0:
+			// neither: NewSchedulableTask fails
+		case 1, 2:
+			cron = kit.Esc(kit.Pick(r, cronPool[3:5]))
+		default:
+			every = strconv.Itoa([]int{7, 10, 60, 13}[r.Intn(4)])
+		}
+		offms := kit.Pick(r, offPool) * 1000
+		if r.Chance(1, 8) {
+			offms -= 250
+		}
+		st := func() string {
+			if r.Chance(1, 3) {
+				return "i"
+			}
+			return "a"
+		}
+		switch k := r.Intn(10); {
+		case k < 3:
+			do(fmt.Sprintf("coord new %d %d %d to=a ls=%s lc=%s every=%s cron=%s", id, nsched, offms, ls, lc, every, cron))
+		case k < 9:
+			do(fmt.Sprintf("coord up %d %d %d from=%s to=%s ls=%s lc=%s every=%s cron=%s", id, nsched, offms, st(), st(), ls, lc, every, cron))
+		default:
+			do(fmt.Sprintf("coord del %d", id))
+		}
+		nsched++
+	}
+	viaCoord := r.Chance(1, 3) // a third of the cases talk to the scheduler through the coordinator
 	sched()
 	for i := 0; i < size && !h.dead; i++ {
 		h.r.mu.Lock()
@@ -120,8 +172,16 @@ func genCase(r *kit.Rand, idx int, tier string) (out []string) {
 		now := h.mc.Mock.Now().Unix()
 		switch k := r.Intn(100); {
 		case k < 22:
-			sched()
+			if viaCoord && r.Chance(2, 3) {
+				coord()
+			} else {
+				sched()
+			}
 		case k < 32:
+			if viaCoord && r.Chance(1, 2) {
+				coord()
+				continue
+			}
 			// release: prefer a scheduled id
 			id := kit.Pick(r, ids)
 			if len(snap.Queue) > 0 && r.Chance(2, 3) {
